@@ -88,7 +88,7 @@ open XPathV.Model
 /-- **`Clone` on all sixteen iterator types (`Model/Pull2`)**, filters with predicates of any value
 kind: whatever state the shared query tree is in, its clone is in reset state, satisfies the machine
 invariant, and its stream is the whole sequence of the plan. -/
-theorem clone_is_fresh_all_iterators' {F : Type} [NumAlg F] (d : Doc) (cfg : ECfg) (dec : Plan → Ref → Bool)
+theorem clone_is_fresh_all_iterators_any_predicate {F : Type} [NumAlg F] (d : Doc) (cfg : ECfg) (dec : Plan → Ref → Bool)
     (q : PQ2) (c : Ref) (hdec : q.DecOK' (F := F) d cfg dec c) :
     q.clone.evaluate = q.clone ∧ q.clone.Inv d ∧
       sel (F := F) d cfg q.plan c = .ok (rem2 d cfg dec c q.clone) :=
